@@ -366,3 +366,72 @@ func VerifH_C16_Probes() {
 	}
 	vrt.Reach("c16.probes")
 }
+
+// VerifH_C16_Decimal64Lexical: token sentences around the decimal64 lexical form.  A
+// value containing any character other than digits, '.', '+' and '-' (exponent letters
+// above all: strconv.ParseFloat understands them, YANG does not) must be rejected; the
+// canonical form [-]digits[.digits{1..fd}] inside the range must be accepted; the
+// remaining shapes ('+' sign, leading zeros, missing integer or fraction part, several
+// dots) are unspecified here.
+func VerifH_C16_Decimal64Lexical() {
+	K := vrt.Param("K", 5)
+	fd := 2
+	typ := NewDecimal64(xml.Name{Local: "decimal64"}, Fracdigit(fd), []Drb{{Start: -99.99, End: 99.99}}, "", "", "", false)
+	toks := []string{"D", ".", "e", "E", "+", "-", "x", " ", "_", "0"}
+	n := 1 + vrt.Choice("tokens", K)
+	text := ""
+	for i := 0; i < n; i++ {
+		t := toks[vrt.Choice("t"+strconv.Itoa(i), len(toks))]
+		if t == "D" {
+			d := vrt.Byte("dig" + strconv.Itoa(i))
+			vrt.Assume(vrt.Or(d == '1', d == '2')) // two digit values keep exponents small enough for the pow10 tables
+			t = string([]byte{d})
+		}
+		text += t
+	}
+	foreign := false
+	for i := 0; i < len(text); i++ {
+		c := text[i]
+		if !(c >= '0' && c <= '9') && c != '.' && c != '+' && c != '-' {
+			foreign = true
+		}
+	}
+	// canonical: [-] (0 | nonzero digits*) [. digits{1..fd}], at most two integer digits (range)
+	canonical := func() bool {
+		i := 0
+		if i < len(text) && text[i] == '-' {
+			i++
+		}
+		st := i
+		for i < len(text) && text[i] >= '0' && text[i] <= '9' {
+			i++
+		}
+		ni := i - st
+		if ni == 0 || ni > 2 || (ni > 1 && text[st] == '0') {
+			return false
+		}
+		if i == len(text) {
+			return true
+		}
+		if text[i] != '.' {
+			return false
+		}
+		i++
+		sf := i
+		for i < len(text) && text[i] >= '0' && text[i] <= '9' {
+			i++
+		}
+		return i == len(text) && i-sf >= 1 && i-sf <= fd
+	}()
+	vrt.Reach("c16.decimal64lexical")
+	err := typ.Validate(c16Ctx{}, c16Path, text)
+	vrt.Observe("verdict", text, err == nil)
+	switch {
+	case foreign:
+		vrt.Assert(err != nil, "c16.decimal64lexical.foreign-character-rejected")
+	case canonical:
+		vrt.Assert(err == nil, "c16.decimal64lexical.canonical-form-accepted")
+	default:
+		vrt.Reach("c16.decimal64lexical.unspecified")
+	}
+}
